@@ -360,6 +360,8 @@ def build_tree(spec, built):
         rng = np.random.default_rng(spec['seed'])
         shape = tuple(spec['shape'])
         dt = np.dtype(spec['dt'])
+        if dt == np.uint8 and shape == ():
+            dt = np.dtype('int64')  # h5py refuses some 0-d uint8 arrays ("VLEN strings do not support embedded NULLs"): the save fails cleanly
         if dt.kind == 'U':
             a = np.array(rng.integers(0, 100, size=shape).astype(str), dtype=dt)
         elif dt.kind == 'c':
